@@ -28,7 +28,7 @@ def gaddr(I, cu, index):
         isnone, sec = sec.isnone, sec.val
     from specs.die import A_value, _ctx
     iarr, cuo = _ctx(cu)
-    base = A_value(iarr, cuo, to_int(cu.attrs['cu_die_offset']), z3.StringVal('DW_AT_addr_base'))
+    base = A_value(iarr, cuo, to_int(cu.attrs['tu_die_offset' if cu.cls == 'TypeUnit' else 'cu_die_offset']), z3.StringVal('DW_AT_addr_base'))
     v = dwarf_word(sec.fields['stream'].arr, base + to_int(index) * to_int(cu.attrs['header'].fields['address_size']),
                    to_int(cu.attrs['structs'].attrs['address_size']))
     return v if isnone is None else z3.If(isnone, absent, v)
@@ -94,7 +94,7 @@ def has_base(I, cu, name):
     from specs.die import A_has, _ctx
     from pyvc.vals import to_str
     arr, cuo = _ctx(cu)
-    return A_has(arr, cuo, to_int(cu.attrs['cu_die_offset']), to_str(name))
+    return A_has(arr, cuo, to_int(cu.attrs['tu_die_offset' if cu.cls == 'TypeUnit' else 'cu_die_offset']), to_str(name))
 
 
 @_native
@@ -103,7 +103,7 @@ def base_of(I, cu, name):
     from specs.die import A_value, _ctx
     from pyvc.vals import to_str
     arr, cuo = _ctx(cu)
-    return A_value(arr, cuo, to_int(cu.attrs['cu_die_offset']), to_str(name))
+    return A_value(arr, cuo, to_int(cu.attrs['tu_die_offset' if cu.cls == 'TypeUnit' else 'cu_die_offset']), to_str(name))
 
 
 @_native
